@@ -25,7 +25,7 @@ ASSUMPTIONS = ["the socket model (recvmsg/sendmsg/pktinfo) is faithful to Linux"
                "call_soon FIFO order of asyncio is kept; timers and arrivals at the same instant are processed arrivals first",
                "time comparisons use a tolerance of 1e-9 s"]
 EXPECTED_PROBES = ["piggyback_with_unknown_token", "request_cancelled_while_exchange_open", "mid_collision_with_peer_message", "giveup", "ack_tie", "ack_pre_eps", "ack_post_eps", "rst", "wrong_mid", "wrong_src",
-                   "server_con", "mr0", "late_ack"]
+                   "server_con", "mr0", "late_ack", "separate_response_during_other_exchange"]
 
 KINDS = ["ack", "rst", "piggy", "piggy_wrongtoken", "wrongmid_ack", "wrongmid_rst", "wrongsrc_ack", "wrongsrc_rst", "wrongport_ack"]
 POSITIONS = ["now", "mid", "pre", "tie", "post", "late"]
@@ -87,6 +87,9 @@ def gen(r, tier):
             "collide": r.choice([None, None, "non", "con"]) if kind == "request" else None,
             # the application may lose interest (cancel) while the exchange is still open
             "cancel_at": (round(r.uniform(0.01, 6.0), 3) if (kind == "request" and r.chance(0.15)) else None),
+            # an earlier request to the same peer that was acknowledged with an empty ACK; its separate response
+            # arrives while THIS message's exchange is open (factor x this message's ACK_TIMEOUT after its start)
+            "companion": (r.choice([0.005, 0.5, 0.99, 1.5, 2.5, 5.0, 12.0]) if (kind == "request" and r.chance(0.2)) else None),
         })
     net = faults.swarm(r, kinds=("drop", "dup", "delay"))
     return {"msgs": msgs, "net": net, "stall": (r.chance(0.15))}
@@ -164,6 +167,19 @@ class AckPeer(ScriptedEndpoint):
         if msg is None or msg["type"] != rc.CON:
             return
         if self.spec["kind"] == "sepresp" and not (msg["code"] >> 5 in (2, 4, 5)):
+            return
+        if 1 <= msg["code"] < 32 and (rc.opt1(msg, rc.URI_PATH) or b"").startswith(b"c"):
+            # the companion request: empty ACK at once, the response in a message of its own much later
+            if "companion_seen" in self.world.setdefault(self.addr, {}):
+                return
+            self.world[self.addr]["companion_seen"] = True
+            self.send(src, msg={"type": rc.ACK, "code": 0, "mid": msg["mid"], "token": b"", "options": [], "payload": b""},
+                      fate=["deliver", 0.002])
+            ato = common.tuning_values(self.spec["tuning"])["ACK_TIMEOUT"]
+            self.send(src, msg={"type": rc.NON, "code": rc.CONTENT, "mid": 0x7C00 + self.spec["id"], "token": msg["token"],
+                                "options": [], "payload": b"companion"},
+                      fate=["at", self.spec["t"] + self.spec["companion"] * ato])
+            self.sim.probe("separate_response_during_other_exchange")
             return
         st = self.world["exch"].get((src, self.addr, msg["mid"]))
         if st is None:
@@ -332,6 +348,11 @@ def execute(sim, scn):
                 peer.send(client_addr, msg={"type": typ, "code": rc.CONTENT, "mid": nxt, "token": b"\xee\x01\x02\x03\x04\x05",
                                             "options": [], "payload": b"unrelated"}, fate=["deliver", 0.001])
             loop.at(max(0.0, m["t"] - 0.01), collide)
+        if m["kind"] == "request" and m.get("companion") is not None:
+            def start_companion(m=m, ip=ip):
+                msg = Message(code=GET, uri="coap://[%s]/c%d" % (ip, m["id"]))
+                tracker.start("c%d" % m["id"], client, msg, handle_blockwise=False)
+            loop.at(max(0.0, m["t"] - 0.02), start_companion)
         if m["kind"] == "request":
             def start(m=m, ip=ip):
                 msg = Message(code=GET, uri="coap://[%s]/x%d" % (ip, m["id"]),
@@ -365,9 +386,11 @@ def execute(sim, scn):
                 spec = m
         if spec is None:
             continue
+        ents = st["entries"]
+        if 1 <= ents[0]["msg"]["code"] < 32 and (rc.opt1(ents[0]["msg"], rc.URI_PATH) or b"").startswith(b"c"):
+            continue  # the companion request's own (promptly acknowledged) exchange is not under study
         tv = common.tuning_values(spec["tuning"])
         mr = tv["MAX_RETRANSMIT"]
-        ents = st["entries"]
         tx = st["tx"]
         ident = {"msg": spec["id"], "dst": fmt(dst), "mid": mid}
         by_msg.setdefault(spec["id"], []).append(st)
